@@ -1,11 +1,21 @@
 import Driver.Util
 import RadicaleModel.Fold
+import RadicaleModel.Export
 open Lean Radicale
 namespace Driver
 
 /-- {"s":[code points]} → physical lines, what the reader yields for them, `safe`, `isBlank` of the input;
     {"lines":[[…],…]} → what the reader yields for these physical lines -/
 def handleFold (j : Json) : Json :=
+  match j.getObjVal? "items" with
+  | .ok (Json.arr its) =>
+    -- {"items":[[line,…],…]} → what the whole-calendar export inserts before END:VCALENDAR, and the TZIDs it kept
+    let items : List (List Export.Line) := its.toList.map (fun it => match it with
+      | Json.arr ls => ls.toList.map asStr
+      | _ => [])
+    obj [("body", Json.arr ((Export.body items).map jStr).toArray),
+         ("tzids", Json.arr ((Export.emittedTzids items).map jStr).toArray)]
+  | _ =>
   match j.getObjVal? "lines" with
   | .ok (Json.arr a) =>
     obj [("read", Json.arr ((Fold.readLines (a.toList.map asStr)).map jStr).toArray)]
